@@ -369,14 +369,18 @@ func attackWorldC09(c *Ctx, rw *refWorld, seed uint64) {
 			}
 			// the same forgeries right after an unauthenticated reinitialisation message that fails / that
 			// succeeds for an unrelated round id: verification must be back on
-			for ri, reData := range []string{`{"dkg_id":"","threshold":0}`, `{"dkg_id":"` + strings.Repeat("d", 64) + `","threshold":2,"participants":[],"messages":[]}`} {
+			tailRejected := `{"dkg_id":"` + strings.Repeat("c", 64) + `","threshold":2,"participants":[],"messages":[{"id":"x","dkg_round_id":"` + strings.Repeat("c", 64) + `","offset":0,"event":"event_dkg_commit_confirm_received","data":"e30=","signature":"AA==","sender":"nobody","recipient":""}]}`
+			for ri, reData := range []string{`{"dkg_id":"","threshold":0}`, `{"dkg_id":"` + strings.Repeat("d", 64) + `","threshold":2,"participants":[],"messages":[]}`, tailRejected} {
 				rid := ""
 				if ri == 1 {
 					rid = strings.Repeat("d", 64)
 				}
+				if ri == 2 {
+					rid = strings.Repeat("c", 64) // the embedded message (last one replayed) is rejected
+				}
 				pre := storage.Message{ID: "pre", DkgRoundID: rid, Event: EvReinit, Data: []byte(reData), SenderAddr: "stranger", Signature: []byte("none")}
 				for i, mu := range authMutants(*g, w, r) {
-					if i%5 != (int(g.Offset)+ri)%5 {
+					if i%6 != (int(g.Offset)+2*ri)%6 {
 						continue
 					}
 					c.Eval(1)
